@@ -1581,9 +1581,19 @@ impl<'t> Cloner<'t> {
                 ValueRepr::Byte(i) => Ok(ValueRepr::Byte(*i)),
                 Int(i) => Ok(Int(*i)),
                 Float(f) => Ok(Float(*f)),
-                ValueRepr::Userdata(userdata) => userdata
-                    .deep_clone(self)
-                    .map(|v| ValueRepr::Userdata(v.unrooted())),
+                ValueRepr::Userdata(userdata) => {
+                    // A userdata value (a reference cell, a lazy value ...) which is reachable through
+                    // several paths must stay one value in the copy, as data and arrays do
+                    let key = &**userdata as *const Box<dyn Userdata> as *const ();
+                    match self.visited.get(&key) {
+                        Some(cloned) => Ok(cloned.clone_unrooted()),
+                        None => {
+                            let cloned = ValueRepr::Userdata(userdata.deep_clone(self)?.unrooted());
+                            self.visited.insert(key, cloned.clone_unrooted());
+                            Ok(cloned)
+                        }
+                    }
+                }
                 ValueRepr::Thread(_) => {
                     Err(Error::Message("Threads cannot be deep cloned yet".into()))
                 }
